@@ -113,19 +113,33 @@ SPEC = dict(
     extra_obligations_name="coq/e2e/E2EPadding.v: the padding clause composed with C01 (C07_padding_scored, "
                            "C07_padding_answers, C07_padding_needs_wildcard_padding, C07_first_sentence_padded)",
     extra_obligations_cmd="make -C coq/e2e (and imported groups) + Print Assumptions audit of LME2E.E2EPadding",
-    rule="Proof: 52 theorems of coq/maxi/C07.v + 10 of coq/maxi/C07Source.v, all inputs (no bound on rows): over an "
+    rule="Proof: 54 theorems of coq/maxi/C07.v + 10 of coq/maxi/C07Source.v (+ in the thorough tier the 8 statements of "
+         "coq/e2e/E2EPadding.v), all inputs (no bound on rows): over an "
          "abstract element type with a total preorder on the admissible values — generic max / argmax / threshold "
          "meet max_spec / argmax_spec (designated cell in range and >= every cell) / threshold_spec (NoDup, "
-         "membership iff cell >= t), None exactly on the matrix without rows. Reused buffers: a StripedScores is modelled as backing vector + row count + max_index (MaxiBuffer.v); for every sequence of StripedScores::resize / DenseMatrix::resize (to more or fewer rows) and cell writes from the empty buffer, matrix().iter() yields exactly rows 0..rows(), so the default max / argmax / threshold (which walk iter()), offset() and Index answer as on a fresh matrix made of the logical rows and meet max_spec / argmax_spec / threshold_spec of those rows (C07_history_independent, C07_history_answers_meet_spec, _f32, _u8, C07_history_same_logical, C07_history_shrink_then_grow), on every arm of the dispatcher (C07_history_dispatch_f32/_u8, C07_history_all_arms_f32/_u8); a resize that only grows the vector is refuted (C07_resize_grow_only_refuted). Kernels: argmax_f32_avx2, max_f32_avx2 "
+         "membership iff cell >= t), None exactly on the matrix without rows -- without any hypothesis for every entry point except "
+         "the arg-maximum of the SSE2 / AVX2 arms, which panic (Panic 20, as coded: the max_index > u32::MAX guard precedes the "
+         "emptiness test) on an empty StripedScores whose max_index exceeds u32::MAX (C07_empty_matrix_any_index; only "
+         "resize(0, >= 2^32) builds such a value); the Generic f32 arm and the non-AVX2 u8 arms need no row-count / max_index "
+         "hypothesis (C07_dispatch_unguarded_arms). Reused buffers: a StripedScores is modelled as backing vector + row count + max_index (MaxiBuffer.v); for every sequence of StripedScores::resize / DenseMatrix::resize (to more or fewer rows) and cell writes from the empty buffer, matrix().iter() yields exactly rows 0..rows(), so the default max / argmax / threshold (which walk iter()), offset() and Index answer as on a fresh matrix made of the logical rows and meet max_spec / argmax_spec / threshold_spec of those rows (C07_history_independent, C07_history_answers_meet_spec, _f32, _u8, C07_history_same_logical, C07_history_shrink_then_grow), on every arm of the dispatcher (C07_history_dispatch_f32/_u8, C07_history_all_arms_f32/_u8); a resize that only grows the vector is refuted (C07_resize_grow_only_refuted). Kernels: argmax_f32_avx2, max_f32_avx2 "
          "(repaired: starts from the first row), argmax_sse2 (any multiple of 16 columns) + Pipeline<Sse2>::max, "
          "argmax_u8_avx2 (repaired column order), max_u8_avx2 each return Ok of an answer meeting the same "
          "specification; every arm of the f32 and u8 dispatcher, the explicit guards (Panic 20/21), agreement of "
          "all arms on the maximum value and on the threshold list; offsets (StripedScores::offset / Index / "
          "argmax / threshold), unstripe and linear Scores::{max,argmax,threshold} (= the positions below "
-         "min(max_index, rows*C)); padding: wildcard column -inf => defined score of a window reaching past "
-         "the end is -inf (binary32 addition as it is) => with cells = defined scores every padding cell is "
-         "-inf, a maximum is the maximum over the valid positions and an arg-maximum designates one when "
-         "some valid score is finite. Order facts discharged for binary32 from Flocq's Bcompare/Bplus by a "
+         "min(max_index, rows*C)); padding (second sentence): wildcard column -inf => the defined score of a window reaching past "
+         "the end is -inf (binary32 addition as it is, C07_padding_score_neg_inf); COMPOSED WITH C01 in coq/e2e/E2EPadding.v: for "
+         "every configured striped sequence (cells past the end hold the wildcard: Striped, what to_striped and -- since /repo "
+         "740d563 -- StripedSequence::sample build), K-column matrix with a -inf wildcard column, 1 <= M <= L, no NaN / +inf partial "
+         "sum, the generic / AVX2 / SSE2 / dispatched scoring pipelines return ONE matrix whose cell i is the defined score of "
+         "position i, -inf for every i >= max_index = L-M+1 (C07_padding_scored), and when a valid score is finite the maximum of "
+         "every arm is the best valid score, the arg-maximum of every arm (L <= u32::MAX) designates a valid position, and for "
+         "t > -inf the threshold list of every arm is exactly the valid positions with score >= t (C07_padding_answers). The premise "
+         "is needed: on a hand-filled matrix (StripedSequence::new) whose padding holds ordinary symbols the cells past max_index are "
+         "finite and every arm reports a padding position (C07_padding_needs_wildcard_padding); only the first sentence is claimed "
+         "there, and proved end to end for every padded state: one score matrix from all backends, cell i = defined score of "
+         "sequence ++ padding, every arm's answers meet max_spec / argmax_spec / threshold_spec (C07_first_sentence_padded). "
+         "Order facts discharged for binary32 from Flocq's Bcompare/Bplus by a "
          "lexicographic key (closed under the global context) and for u8 (Z). check_C07 (extracted, used by "
          "the driver for PROPFAIL) is proved sound and complete (check_C07_sound / _complete, "
          "model_passes_C07), as is the end-to-end padding checker (check_padding_max_sound / _complete). C07Source.v: the dispatcher arm table, the Pipeline<Sse2/Avx2> overrides, the "
@@ -138,10 +152,21 @@ SPEC = dict(
          "Correspondence run — corpus: one unique maximum in every column x first/last row of all-negative f32 and "
          "of u8 matrices (1, 2, 5 rows) and of 16- and 48-column f32 matrices, maxima in rows >= 256 of 300/520-row matrices (row index wider than 8 "
          "bits) and a low/high-row tie, u8 matrices of 32769..65536 rows with maxima in rows >= 32768 (row index negative as i16) incl. ties with a low row, and the 65537-row guard case (Panic 21), all-equal / all -inf / all +inf / signed-zero matrices, no rows, max_index around "
-         "u32::MAX, end-to-end padding cases with L around the 32-column block size. Generated: 40% "
-         "StripedScores<f32,U32>, 30% <u8,U32>, 10% <f32,U16>, 10% <f32,U48> (generic and SSE2 pipelines), 10% end-to-end (ScoringMatrix with -inf "
+         "u32::MAX, end-to-end padding cases with L around the 32-column block size. Generated (case number mod 10): 35 % "
+         "StripedScores<f32,U32>, 20 % <u8,U32>, 10 % u8 with 16 / 48 / 64 columns in turn (kinds b16 / b48 / b64: generic and SSE2 "
+         "pipelines = default scans), 10 % f32 with 16 / 64 columns in turn (f16 / f64) and 10 % with 48 columns (f48) (generic "
+         "pipeline and the SSE2 kernel over 1 / 4 / 3 blocks of 16 columns), 10 % end-to-end (ScoringMatrix with -inf "
          "wildcard column, half of them produced by the library's own count->frequency->log-odds "
-         "conversion, + DNA sequence -> score under each forced arm). Matrix contents: moderate scores, "
+         "conversion, + DNA sequence -> score under each forced arm; 40 % of them Scanner-pattern row ranges into one buffer), "
+         "5 % padding cases `k=pad`: sequence from StripedSequence::sample(StdRng(seed), one of three dyadic backgrounds, L) (50 %), "
+         "from to_striped of text (25 %), or StripedSequence::new on a hand-filled matrix with ordinary / wildcard / mixed padding "
+         "symbols and 0-2 spare rows (25 %); configure; Pipeline::generic / sse2 / avx2 .score and ScoringMatrix::score under each "
+         "forced arm; max / argmax / threshold of the same pipeline resp. of StripedScores under the same arm; judged by check_C07 on "
+         "the observed cells (first sentence) and -- always for sample / text, for `new` only when its padding cells are all "
+         "wildcards -- by check_padding / check_padding_max (every cell of index >= max_index is -inf, max = best valid score, "
+         "argmax < max_index when a valid score is finite, no threshold position >= max_index for t > -inf); cells compared with the "
+         "defined scores of sequence ++ padding symbols. 30 % of the matrix cases of every kind with <= 300 rows run on a REUSED "
+         "buffer (history of 1-3 earlier states, see below). Matrix contents: moderate scores, "
          "all negative, few distinct values (ties), arbitrary non-NaN bit patterns, log-odds like with "
          "-inf cells, signed zeros, infinities/f32::MAX, constant; then maxima planted systematically "
          "(column = case number mod C, row = first/last/middle/random) with 0..25 duplicates in the same "
@@ -151,23 +176,40 @@ SPEC = dict(
          "Pipeline::dispatch() under each forced arm, of StripedScores::{max,argmax,threshold} under each "
          "forced arm (+ scores[argmax]), and of linear Scores over the column-major cells; every answer is "
          "judged by the extracted Coq checker (PROPFAIL) and compared with the extracted kernel model "
-         "incl. exact arg-max coordinates, maximum bit pattern and the threshold list as a set (DIFF). 30 % of the generated matrix cases (<= 300 rows) run on a REUSED buffer: a history of 1-3 earlier states (mostly more rows than the final matrix, filled with values at / above the final maximum or equal to the threshold, +inf; also fewer or zero rows; DenseMatrix-level resize; score_rows_into of a built-in motif on generic / SSE2 / AVX2), then resize(R, mi) and a full or partial rewrite; the answers are judged against the logical rows computed by the extracted buffer model, rows() / iter().count() / content hashes of rows 0..rows() and of iter() are compared with it; 40 % of the end-to-end slot are Scanner-pattern cases (row ranges scored in turn into one buffer under each forced arm, f32 and discrete u8: max / argmax / scores[argmax] / threshold against the observed cells and the dispatcher models). Corpus: 21 history lines, 10 range lines, 7 signed-zero lines. Non-trivial: distinct (kind, matrix, "
-         "threshold) with at least one row / distinct end-to-end (matrix, sequence).",
+         "incl. exact arg-max coordinates, maximum bit pattern and the threshold list as a set (DIFF). 30 % of the generated matrix cases (<= 300 rows) run on a REUSED buffer: a history of 1-3 earlier states (mostly more rows than the final matrix, filled with values at / above the final maximum or equal to the threshold, +inf; also fewer or zero rows; DenseMatrix-level resize; score_rows_into of a built-in motif on generic / SSE2 / AVX2), then resize(R, mi) and a full or partial rewrite; the answers are judged against the logical rows computed by the extracted buffer model, rows() / iter().count() / content hashes of rows 0..rows() and of iter() are compared with it; 40 % of the end-to-end slot are Scanner-pattern cases (row ranges scored in turn into one buffer under each forced arm, f32 and discrete u8: max / argmax / scores[argmax] / threshold against the observed cells and the dispatcher models). Corpus: 21 history lines, 10 range lines, 7 signed-zero lines, one maximum per column of f64 / b16 / b48 / b64 matrices, "
+         "tall compact cases (f32 65537 rows, f16 / b16 70000, f48 / f64 8000, b64 30000), 22 padding lines: the probe of the "
+         "repaired finding (README motif, sample seed 0, L = 40) and neighbours, the same lengths through to_striped, hand-filled "
+         "matrices whose padding holds the motif itself. Non-trivial: distinct (kind, matrix, "
+         "threshold) with at least one row / distinct end-to-end (matrix, sequence) / distinct padding cases with L > 0.",
     trusted_base=[
-        "Coq 8.16.1 kernel (coqc; coqchk in the thorough tier), vm_compute in the Examples and in the 32-lane "
-        "symbolic evaluation of the register-level steps",
+        "Coq 8.16.1 kernel (coqc; coqchk in the thorough tier); vm_compute only in closed Example / witness / refutation lemmas "
+        "(C07.v, MaxiBufferProofs.v, coq/e2e/E2EPadding.v: C07_padding_needs_wildcard_padding); the 32-lane symbolic evaluation "
+        "of the register-level steps (MaxiKernels.v) uses simpl / reflexivity; no native_compute",
         "Flocq 4.1.0 BinarySingleNaN definitions (Bcompare, Bplus) through coq/base/IEEE.v: that they are IEEE "
         "binary32 comparison/addition (the order lemmas themselves are proved, closed under the global context; "
         "the two x + -inf lemmas mention F32.add and inherit Flocq's allow-listed Reals axioms)",
-        "extraction: ExtrOcamlBasic only; OCaml 4.13.1",
+        "extraction: ExtrOcamlBasic only (its Extract Inductive directives for bool, option, list, prod, unit, sumbool, sumor); no other "
+        "Extract Inductive, no Extract Constant; OCaml 4.13.1",
         "hand-written OCaml driver ocaml/maxi/driver.ml (parsing, sorting of the reported threshold lists, "
-        "decoding offsets to coordinates, the valid-position list of the end-to-end cases, comparison, the history parser (ops of "
-        "`h=`), the row hash)",
+        "decoding offsets to coordinates, the valid-position list and V = L+1-M of the end-to-end / padding cases, comparison, the "
+        "history parser (ops of `h=`), the row hash; the hand-written PROPFAIL paths next to the extracted checkers: a panic where "
+        "the model has no guard (max / argmax / threshold / scores[argmax] / scoring / building the sequence), `max disagrees with "
+        "g.max` resp. `pg.max` (value_eq of the extracted le), offset out of range, scores[argmax] differs from the designated "
+        "cell, and in the padding cases `argmax >= max_index` / `threshold position >= max_index for t > -inf` / `max is not the "
+        "best valid score` / `a cell past the last valid position is not -inf` (each implied by check_C07 + check_padding / "
+        "check_padding_max on the same observation, kept for the message), the premise test `pd` all N that decides whether a "
+        "src=new case is judged by the padding clause)",
         "Rust harness harness/src/bin/maxi.rs (builds StripedScores through the public API, catch_unwind, "
-        "verif-hooks force_backend)",
+        "verif-hooks force_backend; StripedSequence::sample with rand 0.8 StdRng::seed_from_u64, Background::new with dyadic "
+        "frequencies, StripedSequence::new on DenseMatrix::from_rows)",
+        "coq/e2e/E2EPadding.v relies on the models of coq/score (C01: tied to pli scoring by C01's own check) and of coq/stripe "
+        "only through the predicate Striped; that to_striped / sample establish Striped is C04's claim (C04_pad_history) and is "
+        "re-observed per case here (`pd` all N)",
         "translator translate/maxi_tables.py (regex / brace-matching reader of dispatch.rs, pli/mod.rs, avx2.rs, "
         "sse2.rs, dense.rs, scores.rs: match arms, overriding methods, wrapper -> kernel, permute2x128 immediates, load/store offsets, "
-        "dense.rs / scores.rs struct fields and resize statements, Iter::new, default-scan loop headers, comparison predicates)",
+        "dense.rs / scores.rs struct fields and resize statements, Iter::new, default-scan loop headers, comparison predicates; a "
+        "non-empty Threshold impl of the dispatcher or of a pipeline is an error: the agreement of the arms on the threshold list "
+        "is `reflexivity` in the model (dispatch_threshold ignores the arm) and rests on this translator check)",
         "modelled, not verified: lane-wise semantics of the AVX2/SSE2 intrinsics used by the five kernels "
         "(load, cmp_ps LE, cmpgt_epi16, sub_epi16, blendv, and/andnot/or select, max_ps, max_epu8, "
         "unpacklo/hi_epi8, permute2x128, storeu), Rust's Iterator::max_by/max_by_key/reduce and f32::max; "
@@ -178,11 +220,18 @@ SPEC = dict(
         "every row has C cells (DenseMatrix invariant), C > 0, C = 32 for the AVX2 kernels, C a multiple of 16 for SSE2",
         "rows <= 2^32 for the f32 vector kernels (row indices are kept in 32-bit lanes; hypothesis rows_fit32); "
         "max_index <= u32::MAX and rows <= 65536 are explicit panics of the code and of the model "
-        "(C07_dispatch_guards), also on a matrix without rows",
-        "padding claim: cell = defined score (property C01, re-validated bit-exactly on every end-to-end case), "
-        "wildcard column -inf, no term and no partial sum of a score is NaN or +inf (checked on every case)",
-        "not covered: NEON kernels (not compiled on this host); f32 matrices with more than 3000 rows are not "
-        "executed (u8 matrices are, up to the 65536-row limit of argmax_u8_avx2 and its guard at 65537 rows)",
+        "(C07_dispatch_guards), also on a matrix without rows (C07_empty_matrix_any_index: the SSE2 / AVX2 f32 arg-maximum "
+        "panics there instead of returning None)",
+        "padding clause: premise `cells of the sequence matrix past the end hold the wildcard` (Striped; holds for to_striped "
+        "and, since /repo 740d563, for StripedSequence::sample; NOT for StripedSequence::new on a hand-filled matrix -- there only "
+        "the first sentence is claimed and judged), wildcard column -inf, no term and no partial sum of a score is NaN or +inf "
+        "(checked on every case); cell = defined score is no longer an assumption of the theorem (C07_padding_scored composes C01) "
+        "and is still re-validated bit-exactly on every end-to-end / padding case; `the library's conversions produce a -inf "
+        "wildcard column` has no theorem in any group (the harness uses the library's own conversion in half of the cases)",
+        "not executed: Arm hosts (neon.rs has no max / argmax kernel; the Arm-host dispatcher tables are modelled from the "
+        "source only: C07_dispatch_armhost, C07_source_armhost_tables); generated f32 matrices have at most 3000 rows, taller "
+        "ones are executed only as the compact corpus cases (f32 65537 rows, f16 70000, f48 / f64 8000; u8 up to the 65536-row "
+        "limit of argmax_u8_avx2 and its guard at 65537 rows)",
         "score_rows_into steps of a history are not modelled (content unknown to the model): such cases rewrite every row "
         "afterwards; stale rows with content below the final maximum and threshold are a tie-only (DIFF) signal",
     ],
